@@ -40,8 +40,9 @@ def run(tier):
         case_of=d.case_of, trace=d.TRACE, key_of=key_of, corruptors=d.CORRUPTORS, init_name='datetime', batch=40, timeout=20.0,
         rule='cases = terminal states of Gen_RelDate (%s): reference days (year boundaries, ISO week 52/53/1, leap day, month ends) x times of day x '
              '{today, tomorrow, yesterday, N days|weeks ago, in N days|weeks, N days from now, next/last/this <weekday>, this/next/last week|month|year, now}; '
-             'oracle = calendar arithmetic of RelDate.tla on day ordinals; replayed into recognize_datetime; verdict by TLC (Trace_DT)' % tier,
-        assumptions=d.ASSUME, exhaustive=True, post=_post)
+             'oracle = calendar arithmetic of RelDate.tla on day ordinals; replayed into recognize_datetime twice: spread over the worker pool, and grouped so that one '
+             'expression meets all its reference datetimes in ascending order in one process; verdict by TLC (Trace_DT)' % tier,
+        assumptions=d.ASSUME, exhaustive=True, post=_post, history_of=lambda case: case['text'])
 
 
 def replay(path):
